@@ -49,7 +49,10 @@ def judge(plugin, case, impl, resp):
     if isinstance(impl, dict) and 'crash' in impl:
         return 'mismatch', 'implementation crashed: ' + str(impl['crash'])
     if 'driver_error' in resp:
-        raise Infra(f'driver error on case {common.canon(case)[:300]}: {resp["driver_error"]}')
+        # the driver could not read the implementation's observation (a value outside the model's
+        # universe, e.g. a string where the model has integers): the correspondence is broken
+        return 'mismatch', ('implementation observation is outside what the model can express: '
+                            + str(resp['driver_error'])[:200])
     if resp.get('applicable', True) and resp.get('spec_impl') is not None:
         return 'counterexample', resp['spec_impl']
     cmp = getattr(plugin, 'compare', None)
